@@ -36,7 +36,7 @@ def run_worker(job, workdir):
         job['module'].split('.')[-1], job['function'], abs(hash(job['item'])) % 10**8, 't' if job['twin'] else 'm'))
     env = _env({'VERIF_TIER': job['tier'], 'VERIF_TWIN': '1' if job['twin'] else '0',
                 'VERIF_FIXDIR': job['fixdir'] or '', 'VERIF_ITEM': job['item'] or '',
-                'VERIF_SEED': str(job['seed'])})
+                'VERIF_SEED': str(job['seed']), 'VERIF_ASPECT': job['prop']})
     budget = job['budget'] if not job['twin'] else min(job['budget'], 120)
     cmd = [PY, '-m', 'vlib.worker', job['module'], job['function'], str(budget), str(job['per_path']), out]
     t0 = time.time()
@@ -62,7 +62,7 @@ def replay_concrete(rep, fixdir):
     """run the harness function on concrete arguments in a plain interpreter (no CrossHair, no glue).
     returns (reproduced: bool, detail: str)"""
     env = _env({'VERIF_TIER': rep.get('tier', 'quick'), 'VERIF_TWIN': '0', 'VERIF_FIXDIR': fixdir or '',
-                'VERIF_ITEM': rep.get('item') or ''})
+                'VERIF_ITEM': rep.get('item') or '', 'VERIF_ASPECT': rep.get('property') or ''})
     p = subprocess.run([PY, '-m', 'vlib.replay', '--inline', json.dumps(rep)], env=env, cwd=ROOT,
                        stdout=subprocess.PIPE, stderr=subprocess.STDOUT, timeout=600)
     out = p.stdout.decode('utf-8', 'replace')
@@ -103,6 +103,7 @@ def main(argv):
     seed = int(os.environ.get('VERIF_SEED', '0') or 0)
     t_start = time.time()
     os.environ['VERIF_TIER'] = tier
+    os.environ['VERIF_ASPECT'] = prop
     if prop not in plan.PLAN:
         print('HARNESS-ERROR: property %s is not claimed (see MANIFEST.json not_applicable)' % prop)
         return EXIT_HARNESS_ERROR
@@ -149,7 +150,7 @@ def main(argv):
                 pp = meta['per_path'] or max(10.0, budget / 4.0)
                 for twin in (False, True):
                     jobs.append(dict(key=key, module=m, function=fname, item=it, twin=twin, budget=budget,
-                                     per_path=pp, tier=tier, fixdir=fixdir, seed=seed))
+                                     per_path=pp, tier=tier, fixdir=fixdir, seed=seed, prop=prop))
         if not jobs:
             print('HARNESS-ERROR: no harness registered for %s/%s' % (prop, tier))
             return EXIT_HARNESS_ERROR
@@ -198,6 +199,9 @@ def main(argv):
                         with open(rpath, 'w') as f:
                             json.dump(rep, f, indent=1, sort_keys=True)
                         detail = rpath
+                    elif rc == 4:
+                        status = 'inconclusive'
+                        detail = 'counterexample is not expressible through the public API (precondition to be tightened): %s' % out[-300:]
                     else:
                         status = 'error'
                         detail = ('solver counterexample did not reproduce concretely (glue/model imprecision): '
